@@ -62,6 +62,13 @@ def gen(run):
                 if pos < len(base):
                     valid.append(base[:pos] + bytes([v]) + base[pos + 1:])
                 valid.append((base[:pos] + bytes([v]) + base[pos:])[:40])
+    # well-formed multi-byte UTF-8 letters and digits (lower-case letters and decimal digits of other scripts) inside otherwise valid layouts
+    for base in (b'abc', b'_a_b', b'app_def_x9', b'ab'):
+        for pos in range(len(base) + 1):
+            for ch in ('\u00e9', '\u00df', '\u03b1', '\u0663', '\uff41', '\uff11', '\U0001d4ea', '\u0430', '\u00b5', '\u2170'):
+                valid.append(base[:pos] + ch.encode() + base[pos:])
+                if pos < len(base):
+                    valid.append(base[:pos] + ch.encode() + base[pos + 1:])
     cases = ['v ' + hx(s) for s in valid]
     # registry histories (the Go registry is global and never shrinks: one cumulative history)
     hist = ['r ' + hx(b'_app_def') + ' ' + hx(b'_biz_def')]
